@@ -4,6 +4,7 @@ from __future__ import annotations
 import math
 import os
 import sys
+import numpy as np
 from typing import Any, Dict, List, Optional, Tuple
 
 from perception_eval.evaluation.metrics.detection.tp_metrics import TPMetricsAph
@@ -34,7 +35,7 @@ RULE = (
     "sequence shape classes: re-evaluated?, narrower-before?, scene queries, permuted?)"
 )
 ASSUMPTIONS = ["confidences are pairwise distinct", "scene pooling groups a result under its estimate's label, or its ground truth's label when the estimate's label is not a target (the library's rule)"]
-DECIDING = ["add_frame_result.snapshots_checked", "get_scene_result.judged", "C13.probe_comparisons", "C13.reevaluated_after_narrower", "C13.one_frame_scenes", "C13.permutations_compared", "C13.audit_events_seen"]
+DECIDING = ["add_frame_result.snapshots_checked", "get_scene_result.judged", "C13.probe_comparisons", "C13.reevaluated_after_narrower", "C13.one_frame_scenes", "C13.permutations_compared", "C13.interpolated_lookups", "C13.audit_events_seen"]
 JOBS = {"quick": 4, "thorough": 14}
 
 AUDIT: Dict[str, Any] = {"root": None, "writes": [], "events": 0, "installed": False}
@@ -69,6 +70,18 @@ def install_audit() -> None:
 
 def gt_snapshot(manager: Any) -> List[Tuple[int, Tuple[int, ...]]]:
     return [(id(f), tuple(id(o) for o in f.objects)) for f in manager.ground_truth_frames]
+
+
+def gt_digest(manager: Any) -> List[Any]:
+    """Content of the loaded ground truth: time stamps, ego poses and object poses (not only identities)."""
+    out = []
+    for f in manager.ground_truth_frames:
+        try:
+            ego = tuple(np.asarray(f.transforms[("base_link", "map")].matrix, dtype=float).round(9).ravel().tolist())
+        except Exception:  # noqa: BLE001
+            ego = None
+        out.append((f.unix_time, f.frame_name, ego, tuple((o.uuid, tuple(float(v) for v in o.state.position), tuple(float(v) for v in o.state.orientation.elements), str(o.frame_id)) for o in f.objects)))
+    return out
 
 
 def install(taps: Taps, ctx: Ctx) -> None:
@@ -198,6 +211,21 @@ def run(ctx: Ctx) -> None:
                                 run_.manager.get_scene_result()
                                 n_scene += 1
                                 seq.append("S")
+                                continue
+                            if nF >= 2 and r.random() < 0.2:
+                                # an interpolated ground-truth lookup between two frames (and its evaluation) is a query
+                                # like any other: it leaves the loaded frames as they were
+                                kk = r.randrange(nF - 1)
+                                t_a, t_b = scn.frames[kk].t, scn.frames[kk + 1].t
+                                t_q = t_a + int((t_b - t_a) * r.choice([0.25, 0.5, 0.8]))
+                                before = gt_digest(run_.manager)
+                                gi = run_.manager.get_ground_truth_now_frame(t_q, interpolate_ground_truth=True, threshold_min_time=t_b - t_a)
+                                if gi is not None:
+                                    crit_, pf_ = run_.configs(kk)
+                                    run_.manager.add_frame_result(unix_time=t_q, ground_truth_now_frame=gi, estimated_objects=scn.make_estimates(kk, frame_id, run_.config.label_converter), critical_object_filter_config=crit_, frame_pass_fail_config=pf_)
+                                ctx.count("C13.interpolated_lookups")
+                                ctx.check(gt_digest(run_.manager) == before, "C13/loaded_dataset_modified_by_evaluation", dict(scn.info, frame_id=frame_id, op="interpolated lookup", between=(kk, kk + 1)), "add_frame_result")
+                                seq.append(f"I{kk}")
                                 continue
                             k = probe_k if r.random() < 0.5 else r.randrange(nF)
                             how = r.choice(["own", "wider", "narrower", "narrower"])
